@@ -276,6 +276,36 @@ def wrap_case(rng, mode, hazard=True, trace=0, run=300, dspec="-", ispec="-", su
     return Case(suite, lines, None, {"mode": mode, "hazard": hazard, "prog": prog, "regs": regs, "pokes": pokes, "d": dspec, "i": ispec})
 
 
+def long_programs(rng, tier="quick"):
+    """LONG runs (thousands of steps): effects that need a counter, an address, a history or a structure to grow. A
+    straight-line program whose pc passes 4096 and 8192; a loop that walks over more blocks than any cache has and runs more
+    iterations than the cache has ways; a loop that re-executes the same instruction objects hundreds of times with
+    changing operands; a call/return loop (procedure and branch counters)."""
+    n = 1100 if tier == "quick" else 2300
+    prog = []
+    for k in range(n):
+        if k % 16 == 5:
+            prog.append(tok("sw", 0, 2, 5, 4 * ((k // 16) % 96)))
+        elif k % 16 == 11:
+            prog.append(tok("lw", 10, 2, 0, 4 * ((k // 32) % 96)))
+        else:
+            prog.append(tok("addi", 5, 5, 0, 1 + k % 3))
+    yield prog, {2: DATA, 5: 0xFFFFFF00}
+    it = 260 if tier == "quick" else 900
+    yield [tok("addi", 6, 0, 0, it), tok("lw", 5, 2, 0, 0), tok("addi", 5, 5, 0, 3), tok("sw", 0, 2, 5, 0), tok("lbu", 10, 2, 0, 1),
+           tok("addi", 2, 2, 0, 4), tok("addi", 6, 6, 0, -1), tok("bne", 0, 6, 0, -24)], {2: DATA, 5: 0}
+    yield [tok("addi", 6, 0, 0, it), tok("add", 5, 5, 6), tok("mul", 10, 5, 5), tok("srai", 10, 10, 0, 3), tok("xor", 5, 5, 10),
+           tok("sltu", 1, 5, 10), tok("addi", 6, 6, 0, -1), tok("bne", 0, 6, 0, -24)], {5: 0x1234567, 10: 1}
+    yield [tok("addi", 6, 0, 0, it // 2), tok("jal", 1, 0, 0, 16, 20), tok("addi", 6, 6, 0, -1), tok("bne", 0, 6, 0, -8), tok("jal", 0, 0, 0, 16, 32),
+           tok("addi", 5, 5, 0, 1), tok("sw", 0, 2, 5, 8), tok("jalr", 0, 1, 0, 0)], {2: DATA, 5: 0}
+
+
+def long_case(prog, regs, mode, hazard=True, dspec="-", ispec="-", suite="sim-long"):
+    lines = header(mode, hazard, dspec, ispec, prog, regs, [])
+    lines += ["sim.snap", "sim.run 1000", "sim.snap", "sim.run 20000", "sim.snap"]
+    return Case(suite, lines, None, {"mode": mode, "hazard": hazard, "prog": prog, "regs": regs, "pokes": [], "d": dspec, "i": ispec, "long": True})
+
+
 def penalty_cache_spec(rng, kind):
     """a cache with a miss penalty > 0 (small geometries, so that evictions happen)"""
     pol = rng.choice(["lru", "plru"])
